@@ -108,8 +108,21 @@ impl MemoryAreas {
     self as *const Self
   }
 
+  /// The ROM bank visible at 0x4000 - 0x7fff. The controller's bank number
+  /// wraps around the number of banks the cartridge really has.
   pub fn get_rom_bank(&self) -> usize {
-    self.cart_state.get_rom_bank()
+    let bank_count = (self.rom.len() / 0x4000).max(1);
+    self.cart_state.get_rom_bank() % bank_count
+  }
+
+  /// Index into cartridge RAM for a bus address in 0xa000 - 0xbfff, wrapped
+  /// around the RAM the cartridge really has. None if there is no RAM.
+  fn get_cart_ram_index(&self, addr: u16) -> Option<usize> {
+    if self.cart_ram.is_empty() {
+      return None;
+    }
+    let offset = addr as usize & 0x1fff;
+    Some((0x2000 * self.cart_state.get_ram_bank() + offset) % self.cart_ram.len())
   }
 
   /// Progress of an active OAM DMA transfer: (source base, next offset)
@@ -175,7 +188,7 @@ pub fn get_executable_memory_slice<'s>(start: usize, mem_ptr: *const MemoryAreas
   match start {
     0x0000..=0x3fff => &mem.rom[start..0x4000],
     0x4000..=0x7fff => {
-      let bank_start = mem.cart_state.get_rom_bank() * 0x4000;
+      let bank_start = mem.get_rom_bank() * 0x4000;
       let bank_end = bank_start + 0x4000;
       let offset = (start & 0x3fff) + bank_start;
       &mem.rom[offset..bank_end]
@@ -210,15 +223,17 @@ pub extern "sysv64" fn memory_read_byte(areas: *const MemoryAreas, addr: u16) ->
   }
   if addr < 0x8000 { // ROM Bank NN
     let offset = addr as usize & 0x3fff;
-    return memory_areas.rom[0x4000 * memory_areas.cart_state.get_rom_bank() + offset];
+    return memory_areas.rom[0x4000 * memory_areas.get_rom_bank() + offset];
   }
   if addr < 0xa000 { // VRAM
     let offset = addr as usize & 0x1fff;
     return memory_areas.video_ram[offset];
   }
   if addr < 0xc000 { // Cart RAM
-    let offset = addr as usize & 0x1fff;
-    return memory_areas.cart_ram[0x2000 * memory_areas.cart_state.get_ram_bank() + offset];
+    return match memory_areas.get_cart_ram_index(addr) {
+      Some(index) => memory_areas.cart_ram[index],
+      None => 0xff, // nothing on the bus
+    };
   }
   if addr < 0xd000 { // Work RAM Bank 0
     let offset = addr as usize & 0xfff;
@@ -267,8 +282,9 @@ pub extern "sysv64" fn memory_write_byte(areas: *mut MemoryAreas, addr: u16, val
     return;
   }
   if addr < 0xc000 { // Cart RAM
-    let offset = addr as usize & 0x1fff;
-    memory_areas.cart_ram[0x2000 * memory_areas.cart_state.get_ram_bank() + offset] = value;
+    if let Some(index) = memory_areas.get_cart_ram_index(addr) {
+      memory_areas.cart_ram[index] = value;
+    }
     return;
   }
   if addr < 0xd000 { // Work RAM Bank 0
